@@ -1456,6 +1456,33 @@ impl<'c> Gen<'c> {
                 return Stmt::Let(v.name, Some(t), e);
             }
         }
+        // in a function that returns an Option: `let v: T = <T?>?;` for any payload type T (the
+        // function's own payload type is usually another one), Some and None operands alike
+        if matches!(self.cur_ret, Ty::Opt(_)) && self.cur_kind == FnKind::Fn && !self.in_const && self.c.chance(80) {
+            let t = self.value_ty(1);
+            if !mentions_anon(&t) {
+                let ot = Ty::opt(t.clone());
+                let q = self.fresh("q");
+                let init = if self.c.chance(200) { self.construct(&ot, Fix::Direct, 1) } else { self.expr(&ot, d, Fix::Direct) };
+                let operand = Expr::Block(Block { stmts: vec![Stmt::Let(q.clone(), Some(ot), init)], tail: Some(Box::new(Expr::Var(q))) });
+                let name = self.fresh("v");
+                self.bind(&name, t.clone(), true);
+                return Stmt::Let(name, Some(t), Expr::Try(Box::new(operand)));
+            }
+        }
+        // the result of some helper function, whatever it returns (helpers with uncommon
+        // return types would hardly ever run otherwise)
+        if self.prog.funcs.len() > 1 && !self.in_const && self.c.chance(36) {
+            let j = 1 + self.c.below(self.prog.funcs.len() - 1);
+            let t = self.prog.funcs[j].ret.clone();
+            if t != Ty::Unit && !mentions_anon(&t) {
+                if let Some(e) = self.call_expr(&t, d) {
+                    let name = self.fresh("v");
+                    self.bind(&name, t.clone(), true);
+                    return Stmt::Let(name, Some(t), e);
+                }
+            }
+        }
         let t = self.value_ty(2);
         let name = self.fresh("v");
         // annotation may be dropped when the initialiser determines its own type
@@ -1498,6 +1525,13 @@ impl<'c> Gen<'c> {
                     let (n, t) = fs[self.c.below(fs.len())].clone();
                     place.fields.push(n);
                     ty = t;
+                }
+                // `+=` also joins strings and lists (the old value of the place is replaced)
+                let joinable = matches!(ty, Ty::Str) || (matches!(ty, Ty::List(_)) && self.prof.lists);
+                if joinable && self.c.chance(110) {
+                    let rhs = self.expr(&ty, d, Fix::Direct);
+                    out.push(Stmt::Expr(Expr::Compound(place, BinOp::Add, Box::new(rhs))));
+                    return;
                 }
                 let compound = ty.is_numeric() && self.c.chance(100);
                 if compound {
@@ -1674,8 +1708,17 @@ impl<'c> Gen<'c> {
                     let item = self.expr(et, d, Fix::Direct);
                     out.push(Stmt::Expr(Expr::Method(Box::new(Expr::Var(v.name.clone())), "push".into(), vec![item])));
                 } else {
-                    let i = self.expr(&Ty::Int(IntTy::U64), 1, Fix::Direct);
-                    let j = self.expr(&Ty::Int(IntTy::U64), 1, Fix::Direct);
+                    // mostly indices that exist in a short list, so that something is exchanged
+                    let mut idx = |g: &mut Self| {
+                        if g.c.chance(200) {
+                            let k = g.c.below(4) as i128;
+                            g.int_lit(IntTy::U64, k, Fix::Direct)
+                        } else {
+                            g.expr(&Ty::Int(IntTy::U64), 1, Fix::Direct)
+                        }
+                    };
+                    let i = idx(self);
+                    let j = idx(self);
                     out.push(Stmt::Expr(Expr::Method(Box::new(Expr::Var(v.name.clone())), "swap".into(), vec![i, j])));
                 }
             }
@@ -1758,7 +1801,15 @@ impl<'c> Gen<'c> {
                 let t = self.value_ty(2);
                 params.push((format!("p{p}"), t));
             }
-            let ret = if self.c.chance(40) { Ty::Unit } else { self.value_ty(2) };
+            // (a fifth of the helpers return an Option, so that `?` on operands of every payload
+            // type occurs in functions whose own payload type is another one)
+            let ret = if self.c.chance(40) {
+                Ty::Unit
+            } else if self.prof.aggregates && self.c.chance(50) {
+                Ty::opt(self.value_ty(1))
+            } else {
+                self.value_ty(2)
+            };
             self.prog.funcs.push(Func { kind: FnKind::Fn, name: format!("f{i}"), params, ret, body: Block::default() });
         }
     }
